@@ -24,6 +24,8 @@ ASSUMPTIONS = ["the body of `with sys_path(...)` may rebind sys.path and raise a
 
 def setup_sys(P):
     old = Opaque("old_sys_path", z3.Int("old_sys_path_id"))
+    # value comparison of the old list with anything else: undetermined (the requested paths may or may not equal it)
+    P.ex.opaque_eq = lambda P_, o, other: z3.Bool(P_._fresh_name("sys_path_value_equals_other"))
     P.ghost["ext"] = {"sys.path": old}
     return old
 
